@@ -1,5 +1,5 @@
 """C13 cubical complexes: the filtration order clause (total, value first, faces first, schedule independent)."""
-from gsa import cmprules, facts, ir
+from gsa import cmprules, facts, ir, paths
 from gsa.facts import Unit, rel, AnalysisBroken
 from gsa.report import Check
 
@@ -8,6 +8,96 @@ UNITS = [Unit('misc_tbb', 'misc_pat.cpp', MATCH, defines=['-DGUDHI_USE_TBB'], no
          Unit('misc_seq', 'misc_pat.cpp', MATCH, no_inst=True)]
 
 KEYS = ['CC_->data[@]', 'CC_->get_dimension_of_a_cell(@)', '@']
+
+
+def run_boundary_alternation(chk, F):
+    """boundaries "taken with signs alternating along the enumeration": in get_boundary_of_a_cell (plain and periodic)
+    every direction in which the cell is thick contributes exactly two faces and advances the alternation counter
+    exactly once on every path; directions in which it is thin contribute nothing; the two parity arms push the same
+    two faces in opposite order"""
+    n = 0
+    for f in F.funcs('get_boundary_of_a_cell', unit='misc_seq'):
+        if f['inst'] not in (0, 2) or f.get('body') is None:
+            continue
+        cnt = None
+        for x in ir.walk(f['body']):
+            if x.get('k') == 'UnaryOperator' and x.get('op') == '++' and 'sum' in ir.show(x['c'][0]):
+                cnt = ir.show(x['c'][0])
+        if cnt is None:
+            raise AnalysisBroken('C13: alternation counter not found in %s' % f['qual'])
+        # direction blocks: the body of the loop over the directions, and the split-out last direction
+        blocks = []
+        for x in ir.walk(f['body']):
+            if x.get('k') == 'ForStmt':
+                blocks.append(('loop', x.get('body')))
+        top = f['body'].get('c') or []
+        for st in top:
+            if st.get('k') == 'IfStmt' and ir.contains(st, lambda y: ir.is_call(y) and ir.call_name(y) == 'push_back'):
+                blocks.append(('last', st))
+        for kind, blk in blocks:
+            n += 1
+
+            def cl(x, cnt=cnt):
+                if ir.is_call(x) and ir.call_name(x) == 'push_back':
+                    return ['PUSH']
+                if x.get('k') == 'UnaryOperator' and x.get('op') == '++' and ir.show(x['c'][0]) == cnt:
+                    return ['INC']
+                return []
+            pseudo = {'body': blk, 'name': f['name'], 'file': f['file']}
+            ps = paths.enumerate_paths(pseudo, cl, loop_mode='01', keep_conds=True)
+            bad = None
+            for p in ps:
+                tags = p.tags()
+                pu, inc = tags.count('PUSH'), tags.count('INC')
+                if not ((pu == 2 and inc == 1) or (pu == 0 and inc == 0)) and bad is None:
+                    bad = (pu, inc, p)
+            chk.ob('E2n-alternation', '%s::get_boundary_of_a_cell (%s direction block): two faces and one step of the '
+                   'sign counter per thick direction' % (f.get('clsname'), kind), '%s:%s' % (rel(f['file']), blk.get('l')),
+                   bad is None, '' if bad is None else 'a path pushes %d faces and advances %s %d times [decisions: %s]'
+                   % (bad[0], cnt, bad[1], '; '.join(('' if pol else '!') + ir.show(c)[:50] for c, pol, _ in
+                                                      bad[2].conds if not isinstance(c, tuple))[:200]),
+                   key='E2n|%s::get_boundary_of_a_cell|%s|alternation' % (f.get('clsname'), kind))
+            # parity arms: same two faces, opposite order
+            for ifs in ir.walk(blk):
+                if ifs.get('k') == 'IfStmt' and ir.show(ifs.get('cond')).replace(' ', '') in ('(%s%%2)' % cnt,):
+                    a = [ir.show(ir.call_args(y)[0]) for y in ir.walk(ifs.get('then')) if ir.is_call(y) and
+                         ir.call_name(y) == 'push_back']
+                    b = [ir.show(ir.call_args(y)[0]) for y in ir.walk(ifs.get('else')) if ir.is_call(y) and
+                         ir.call_name(y) == 'push_back']
+                    ok = len(a) == 2 and a == list(reversed(b))
+                    chk.ob('E2n-alternation', '%s::get_boundary_of_a_cell: the parity arms push the same two faces in '
+                           'opposite order' % f.get('clsname'), '%s:%s' % (rel(f['file']), ifs.get('l')), ok,
+                           '' if ok else 'odd arm pushes %s, even arm pushes %s' % (a, b),
+                           key='E2n|%s::get_boundary_of_a_cell|parity-arms|%s' % (f.get('clsname'), a[0][:30] if a else ''))
+    chk.expect_count('E2n-alternation', 'direction blocks', n, 3)
+
+
+def run_fill_values(chk, F):
+    """lower-star values are a min over top cells (max over vertices): the value every other cell starts from must be
+    the neutral element, +infinity for the min and -infinity for the max, in the plain and in the periodic class"""
+    fs = [f for f in F.funcs('set_up_containers', unit='misc_seq') if f['inst'] in (0, 2)]
+    if len(fs) < 2:
+        raise AnalysisBroken('C13: set_up_containers of the two cubical classes not found')
+    for f in fs:
+        fills = {}
+        for ifs in ir.walk(f['body']):
+            if ifs.get('k') == 'IfStmt' and ir.show(ifs.get('cond')) == 'is_pos_inf':
+                for pol, arm in ((True, ifs.get('then')), (False, ifs.get('else'))):
+                    t = ' '.join(ir.show(y) for y in ir.walk(arm))
+                    fills[pol] = t
+        ok = True
+        why = ''
+        if set(fills) != {True, False}:
+            ok, why = False, 'the two fill arms on is_pos_inf were not found'
+        else:
+            pos_ok = 'infinity()' in fills[True] and '-infinity()' not in fills[True]
+            neg_ok = '-infinity()' in fills[False]
+            ok = pos_ok and neg_ok
+            why = '' if ok else 'fill for the min-propagation: %s ; for the max-propagation: %s' % (
+                fills[True][:90], fills[False][:90])
+        chk.ob('E7-fill-value', '%s::set_up_containers fills the bitmap with the neutral element of the propagation '
+               '(+inf for min over top cells, -inf for max over vertices)' % f.get('clsname'),
+               '%s:%d' % (rel(f['file']), f['line']), ok, why, key='E7|%s::set_up_containers|fill' % f.get('clsname'))
 
 
 def run(tier, replay=None):
@@ -50,6 +140,8 @@ def run(tier, replay=None):
         chk.ob('E7b-sort-arms', 'both arms pass the checked comparator is_before_in_filtration',
                'src/Bitmap_cubical_complex/include/gudhi/Bitmap_cubical_complex.h:%s' % s1.get('l'), comp_ok,
                '' if comp_ok else 'comparator arguments: %s / %s' % (a1[-1:], a2[-1:]), key='E7b|cubical|comparator')
+    run_boundary_alternation(chk, F)
+    run_fill_values(chk, F)
     chk.assumptions += ['filtration values obey trichotomy (no NaN), as the property states',
                         'clang 14 parser; both preprocessor configurations parsed']
     return chk
